@@ -58,7 +58,7 @@ ASSUMPTIONS = [
     "fuel/depth/timeout/crash/panic outcomes are inconclusive here (C14 owns panics)",
 ]
 PLAN = {
-    "quick": {"patterns": 8000, "histories": 1000, "shards": 16},
+    "quick": {"patterns": 30000, "histories": 4000, "shards": 16},
     "thorough": {"patterns": 300000, "histories": 40000, "shards": 32},
 }
 EXHAUSTIVE = {}
